@@ -90,6 +90,10 @@ func init() {
 		Old: "\t\t\tif e := target.Close(); e != nil {\n\t\t\t\tl.l.Error(\"write error, retrying\",\n\t\t\t\t\tzap.String(\"key\", key),\n\t\t\t\t\tzap.Error(e),\n\t\t\t\t)\n\t\t\t\tif err == nil {\n\t\t\t\t\t// do not mask a write error by the outcome of Close\n\t\t\t\t\terr = e\n\t\t\t\t}\n\t\t\t}\n\n\t\t\treturn err\n\t\t}\n\t\terr = backoff.Retry(operation, retryPolicy)\n\t\tif err != nil {\n\t\t\treturn fmt.Errorf(\"write record for %q: %v\", key, err)\n\t\t}\n\t} else {",
 		New: "\t\t\terr = target.Close()\n\t\t\tif err != nil {\n\t\t\t\tl.l.Error(\"write error, retrying\",\n\t\t\t\t\tzap.String(\"key\", key),\n\t\t\t\t\tzap.Error(err),\n\t\t\t\t)\n\t\t\t}\n\n\t\t\treturn err\n\t\t}\n\t\terr = backoff.Retry(operation, retryPolicy)\n\t\tif err != nil {\n\t\t\treturn fmt.Errorf(\"write record for %q: %v\", key, err)\n\t\t}\n\t} else {",
 		Expect: "errors-surface"})
+	addWitness(witness{Prop: "C03", Name: "download-absorbs-put-error", File: "pkg/core/bundle_unpack.go",
+		Old: "\t\tbundle.l.Error(\"Failed to download bundle entry: put to store\",\n\t\t\tzap.String(\"name\", bundleEntry.NameWithPath),\n\t\t\tzap.Error(err))\n\t\treturn err",
+		New: "\t\tbundle.l.Error(\"Failed to download bundle entry: put to store\",\n\t\t\tzap.String(\"name\", bundleEntry.NameWithPath),\n\t\t\tzap.Error(err))\n\t\tif !overwrite {\n\t\t\treturn nil\n\t\t}\n\t\treturn err",
+		Expect: "no-success-on-failure"})
 	addWitness(witness{Prop: "C03", Name: "default-verify-off", File: "pkg/cafs/cafs.go",
 		Old: "\t\twithVerifyHash:              true,  // verify read blobs and written root key", New: "\t\twithVerifyHash:              false, // verify read blobs and written root key",
 		Expect: "defaults"})
@@ -1260,6 +1264,11 @@ func runC03(c *Ctx) {
 		n += checkErrDiscipline(c, "errors-surface", p.Func(id), storeIO, map[string]string{})
 	}
 	c.requireInstances("errors-surface", 14)
+	for _, id := range []string{"pkg/core.downloadBundleEntrySyncMaybeOverwrite", "pkg/core.unpackDataFile", "pkg/core.unpackDataFiles", "pkg/storage/localfs.localFS.Put",
+		"pkg/cafs.leavesForHash", "pkg/cafs.bytesFromRoot", "pkg/cafs.defaultFs.reader", "pkg/cafs.readLeafFunc", "pkg/cafs.chunkReader.Read"} {
+		checkNoSwallow(c, "errors-surface.no-success-on-failure", p.Func(id), nil, []string{"EOF"}) // io.EOF ends a leaf / a stream: not a failure
+	}
+	c.requireInstances("errors-surface.no-success-on-failure", 15)
 	n += checkRetryOperands(c, "errors-surface.retry-operand", p.Func("pkg/storage/localfs.localFS.Put"))
 	_ = n
 }
